@@ -1030,21 +1030,53 @@ def replay_real(unit: "Unit", thread_bodies: list[Callable[[], Any]], trace: lis
     ths = [_real_threading.Thread(target=runner, args=(i,), daemon=True) for i in range(n_bodies)]
     for i, t in enumerate(ths):
         t._coop_idx = i  # type: ignore[attr-defined]
+    # The model lets every *timed* wait (Semaphore.acquire(timeout=..), Thread.join(timeout),
+    # Event.wait(timeout)) time out at once ("any timing").  On the real threads the same choice is
+    # made for threads taking part in the replay: with all other threads gated, an expired timeout is
+    # the schedule in which nothing else ran for that long.
+    orig_sem_acquire = _real_threading.Semaphore.acquire
+    orig_join = _real_threading.Thread.join
+    orig_ev_wait = _real_threading.Event.wait
+
+    def _in_replay() -> bool:
+        return getattr(_real_threading.current_thread(), "_coop_idx", None) is not None
+
+    def sem_acquire(self, blocking=True, timeout=None):  # type: ignore[no-untyped-def]
+        if timeout is not None and blocking and _in_replay():
+            return orig_sem_acquire(self, False)
+        return orig_sem_acquire(self, blocking, timeout)
+
+    def thr_join(self, timeout=None):  # type: ignore[no-untyped-def]
+        if timeout is not None and _in_replay():
+            return None
+        return orig_join(self, timeout)
+
+    def ev_wait(self, timeout=None):  # type: ignore[no-untyped-def]
+        if timeout is not None and _in_replay():
+            return self.is_set()
+        return orig_ev_wait(self, timeout)
+
     if dynamic:
         _real_threading.Thread.start = start_wrapper  # type: ignore[method-assign]
         _real_threading.settrace(dyn_glob)
+        _real_threading.Semaphore.acquire = sem_acquire  # type: ignore[method-assign]
+        _real_threading.Thread.join = thr_join  # type: ignore[method-assign]
+        _real_threading.Event.wait = ev_wait  # type: ignore[method-assign]
     try:
         for t in ths:
             orig_start(t)
         for t in ths:
-            t.join(timeout_s)
+            orig_join(t, timeout_s)
         for t in list(spawned):
             if getattr(t, "_started", None) is not None and t._started.is_set():
-                t.join(2.0)
+                orig_join(t, 2.0)
     finally:
         if dynamic:
             _real_threading.Thread.start = orig_start  # type: ignore[method-assign]
             _real_threading.settrace(None)  # type: ignore[arg-type]
+            _real_threading.Semaphore.acquire = orig_sem_acquire  # type: ignore[method-assign]
+            _real_threading.Thread.join = orig_join  # type: ignore[method-assign]
+            _real_threading.Event.wait = orig_ev_wait  # type: ignore[method-assign]
     STATS["real_replays"] += 1
     return {
         "completed": all(not t.is_alive() for t in ths) and all(not t.is_alive() for t in spawned),
